@@ -436,6 +436,11 @@ def run(plan, ch, want_log=False):
                 viol.append(("C01", "wrong_value", (repr(ds), v, ref[(ds.task, ds.output)]), {}))
             elif knobs["exec"] == "model" and v != ("val", ds.task, ds.output):
                 viol.append(("C01", "wrong_value", (repr(ds), v), {}))
+        if ginfo is not None and ginfo.get("orig_valueset") is not None and not ginfo["expect_failure"] and all(v is not None for v in st.outputs.values()):
+            got, want = {repr(v) for v in st.outputs.values()}, set(ginfo["orig_valueset"])
+            if got != want:
+                viol.append(("C10", "cascade_of_actions_computes_other_values_than_the_actions", dict(lost=sorted(want - got)[:3], extra=sorted(got - want)[:3],
+                                                                                              n_want=len(want), n_got=len(got)), gsig))
         never = sorted(set(job.tasks) - set(b.dispatched))
         if never:
             viol.append(("C02", "task_never_dispatched", never, dict(inverted=bool(b.inverted_tasks), swapped=b.swapped)))
